@@ -7,6 +7,7 @@ class Num (R : Type) extends Add R, Sub R, Mul R, Div R, Neg R where
   abs : R → R
   /-- real power `x ** y` -/
   pow : R → R → R
+  exp : R → R
 
 instance : Num Float where
   ofNat := Nat.toFloat
@@ -14,6 +15,7 @@ instance : Num Float where
   log := Float.log
   abs := Float.abs
   pow := Float.pow
+  exp := Float.exp
 
 namespace Num
 /-- decimal literal `m / 10^d` -/
